@@ -552,8 +552,23 @@ def handleInputEvent (k : KState) (i : Input) : Except Crash KState :=
       | .error e => .error (.layout e)
       | .ok l => .ok { k with layout := l }
 
-/-- `Kanata::is_idle` (the conjuncts that concern modelled components) -/
+/-- `Kanata::is_idle` (the conjuncts that concern modelled components), as in the tree now -/
 def isIdle (k : KState) : Bool :=
+  let l := k.layout
+  let pressedKeysMeansNotIdle := !k.waitingForIdle.isEmpty || k.liveReloadRequested
+  l.queue.isEmpty && l.waiting.isNone && l.extraWaiting.isEmpty && l.lptTapHoldTimeout == 0 &&
+  l.oneshot.keys.isEmpty && l.oneshot.pauseInputProcessingTicks == 0 && l.activeSequences.isEmpty &&
+  l.tapDanceEager.isNone && l.actionQueue.isEmpty && k.scroll.isNone && k.hscroll.isNone &&
+  k.moveV.isNone && k.macroOnPressCancelDuration == 0 && k.moveH.isNone && k.capsWord.isNone &&
+  k.vkeysPendingRelease.isEmpty &&
+  !(l.states.any fun s => match s with
+    | .seqCustomPending _ | .seqCustomActive _ => true
+    | .normalKey .. => pressedKeysMeansNotIdle
+    | _ => false)
+
+/-- `Kanata::is_idle` of the pinned commit, before the three `fix:` commits 6f31db9, 1f5ac33,
+6e1cc72 (no `extra_waiting` conjunct; one-shot timeout 0 counted as idle; rapid-event pause ignored) -/
+def isIdlePinned (k : KState) : Bool :=
   let l := k.layout
   let pressedKeysMeansNotIdle := !k.waitingForIdle.isEmpty || k.liveReloadRequested
   l.queue.isEmpty && l.waiting.isNone && l.lptTapHoldTimeout == 0 &&
